@@ -10,6 +10,7 @@
 """
 
 import random
+import re
 import time
 import traceback
 
@@ -203,6 +204,11 @@ def run_case(body, spec, complex_=False, validate=False, max_paths=2000, seed=0,
     signal.setitimer(signal.ITIMER_REAL, wall_limit)
     try:
         return run_case_inner(body, spec, complex_, validate, max_paths, seed, query_timeout_ms, want_sample)
+    except Exception as e:  # a failure of the machinery itself: harness error for this case, never a crash of the run
+        zt._CTL[0] = None
+        res = CaseResult()
+        res.harness_errors.append(f"machinery exception {type(e).__name__}: {e} on {_short(spec)[:300]}")
+        return res
     except CaseTimeout:
         zt._CTL[0] = None
         res = CaseResult()
@@ -289,8 +295,17 @@ def run_case_inner(body, spec, complex_=False, validate=False, max_paths=2000, s
                 # the abstraction did not prove it: before a (possibly very long) non-linear search for a model, try to
                 # falsify on the real code with ordinary numpy blocks and random data - a failing run *is* the replayed violation
                 res._num_tried = True
-                for t in range(2):
-                    vals = {n: random.Random(seed * 31 + t).uniform(-2, 2) for n in sorted(set(S.varnames))}
+                names_ = sorted(set(S.varnames))
+                rnd = random.Random(seed * 31 + 7)
+                # generic data twice, then degenerate data (rank-deficient blocks are where decided-zero pivots live):
+                # all zero, first column of every block zero, all ones (rank one)
+                tries = [{n: rnd.uniform(-2, 2) for n in names_}, {n: rnd.uniform(-2, 2) for n in names_},
+                         {n: 0.0 for n in names_},
+                         {n: (0.0 if re.search(r",0\](\.re|\.im)?$|\[0\](\.re|\.im)?$", n) else rnd.uniform(-2, 2)) for n in names_},
+                         {n: (0.0 if n.endswith(".im") else 1.0) for n in names_}]
+                if any(t_ and t_.startswith("input:") for t_, _ in c.assumptions) or not any(t_ and "contract" in t_ for t_, _ in c.assumptions):
+                    tries = tries[:2]  # degenerate data would violate stated input assumptions / is only meant for LAPACK pivots
+                for t, vals in enumerate(tries):
                     failed, structural, err, Sn = replay_numeric(body, spec, complex_, vals, seed=seed * 31 + t)
                     if failed or structural or err is not None:
                         nm = failed[0] if failed else (structural[0][0] if structural else f"raised:{type(err).__name__}")
@@ -373,11 +388,30 @@ def _check_linear(c, goal):
         L = c._lin = zt.Linearizer(sq)
         c._lin_solver = z3.Solver()
         c._lin_solver.set("timeout", 20000)
-        for _, f in c.assumptions:
-            c._lin_solver.add(L.lin(z3.simplify(f, som=True)))
+        # value propagation: a branch condition `x == numeral` (e.g. a diagonal entry decided to be zero) must reach the
+        # monomials that contain x before they are turned into opaque atoms
+        subs = []
         for f in c.path:
-            c._lin_solver.add(L.lin(z3.simplify(f, som=True)))
-    return c._lin_solver.check(z3.Not(L.lin(z3.simplify(goal, som=True))))
+            g = z3.simplify(f)
+            if z3.is_eq(g):
+                a, b = g.arg(0), g.arg(1)
+                if z3.is_rational_value(a) and z3.is_const(b) and not z3.is_rational_value(b):
+                    subs.append((b, a))
+                elif z3.is_rational_value(b) and z3.is_const(a) and not z3.is_rational_value(a):
+                    subs.append((a, b))
+        c._lin_subs = subs
+
+        def prep(f):
+            if subs:
+                f = z3.substitute(f, *subs)
+            return L.lin(z3.simplify(f, som=True))
+
+        c._lin_prep = prep
+        for _, f in c.assumptions:
+            c._lin_solver.add(prep(f))
+        for f in c.path:
+            c._lin_solver.add(prep(f))
+    return c._lin_solver.check(z3.Not(c._lin_prep(goal)))
 
 
 def _short(spec):
@@ -431,7 +465,10 @@ def _replay_and_record(res, body, spec, complex_, c, S, kind, name, detail, valu
         values = {}
         if S is not None and S.varnames and c.solver.check() == z3.sat:
             names = sorted(set(S.varnames))
-            m = _bounded_model(c.solver, z3.BoolVal(True), names) or c.solver.model()
+            m = _bounded_model(c.solver, z3.BoolVal(True), names)
+            if m is None:
+                c.solver.check()
+                m = c.solver.model()
             values = _model_values(m, names)
     failed, structural, err, Sn = replay_numeric(body, spec, complex_, values)
     if kind in ("raised", "structural") and not (failed or structural or err is not None):
@@ -485,9 +522,18 @@ def _replay_structural(res, body, spec, complex_, c, S):
     values = {}
     if S.varnames and c.solver.check() == z3.sat:
         names = sorted(set(S.varnames))
-        m = _bounded_model(c.solver, z3.BoolVal(True), names) or c.solver.model()
+        m = _bounded_model(c.solver, z3.BoolVal(True), names)
+        if m is None:
+            c.solver.check()
+            m = c.solver.model()
         values = _model_values(m, names)
     failed, structural, err, Sn = replay_numeric(body, spec, complex_, values)
+    if not (failed or structural or err is not None):
+        for t in range(2):  # an unconstrained model is typically all zeros: also try generic data
+            failed, structural, err, Sn = replay_numeric(body, spec, complex_, {}, seed=2000 + t)
+            if failed or structural or err is not None:
+                values = dict(Sn.values)
+                break
     got = {n for n, _ in structural}
     for name, detail in S.structural:
         rec = {"body": getattr(body, "__name__", str(body)), "kind": "structural", "name": name, "detail": str(detail)[:1500],
